@@ -614,14 +614,28 @@ fn wrap_154(dst: &Ll, dst_pan: Option<u16>, src_ext: u64, ip6: &[u8]) -> Vec<u8>
     let mut b = vec![0u8; r.buffer_len()];
     r.emit(&mut Ieee802154Frame::new_unchecked(&mut b[..]));
     let mcast = ip6[24] == 0xff;
-    // 011 TF=11 NH=0 HLIM=00 | CID=0 SAC=0 SAM=00 M DAC=0 DAM=00
-    b.push(0x78);
+    let hbh = ip6[6] == 0;
+    // 011 TF=11 NH HLIM=00 | CID=0 SAC=0 SAM=00 M DAC=0 DAM=00
+    // (a hop-by-hop header must be NHC-compressed: uncompressed next headers other than
+    //  TCP/UDP/ICMPv6 are refused by the decompressor)
+    b.push(if hbh { 0x7c } else { 0x78 });
     b.push(if mcast { 0x08 } else { 0x00 });
-    b.push(ip6[6]); // next header
+    if !hbh {
+        b.push(ip6[6]); // next header
+    }
     b.push(ip6[7]); // hop limit
     b.extend_from_slice(&ip6[8..24]);
     b.extend_from_slice(&ip6[24..40]);
-    b.extend_from_slice(&ip6[40..]);
+    if hbh {
+        let l = (ip6[41] as usize + 1) * 8;
+        b.push(0xe0); // NHC extension header: EID 0 (hop-by-hop), next header carried inline
+        b.push(ip6[40]); // next header
+        b.push((l - 2) as u8); // length of the options
+        b.extend_from_slice(&ip6[42..40 + l]);
+        b.extend_from_slice(&ip6[40 + l..]);
+    } else {
+        b.extend_from_slice(&ip6[40..]);
+    }
     b
 }
 
